@@ -92,6 +92,21 @@ func (c *Ctx) Fail(oracle, format string, a ...any) {
 	c.S.Fail(oracle, format, a...)
 }
 
+// Stuck reports that the driver has no event left to inject although tasks
+// are still blocked inside library calls: nothing can ever wake them, i.e. a
+// deadlock or lost wake-up in the library. It is attributed to the scenario's
+// property (the id is derived from PanicOracle: "C05.P.panic" -> "C05.Q.blocked-forever").
+func (c *Ctx) Stuck(format string, a ...any) {
+	c.S.Fail(c.blockedOracle(), "no task can make progress but calls have not returned: "+format, a...)
+}
+
+func (c *Ctx) blockedOracle() string {
+	if c.PanicOracle != "" {
+		return PropOf(c.PanicOracle) + ".Q.blocked-forever"
+	}
+	return "HARNESS.stuck"
+}
+
 // Failed reports whether the run already has a violation.
 func (c *Ctx) Failed() bool { return c.S.Failed != nil }
 
